@@ -13,6 +13,7 @@ mod c08;
 mod c09;
 mod c10;
 mod c11;
+mod c12;
 mod c13;
 mod c14;
 mod c15;
@@ -43,6 +44,7 @@ fn table() -> Vec<(&'static str, RunFn, ReplayFn)> {
         ("C09", c09::run as RunFn, c09::replay as ReplayFn),
         ("C10", c10::run as RunFn, c10::replay as ReplayFn),
         ("C11", c11::run as RunFn, c11::replay as ReplayFn),
+        ("C12", c12::run as RunFn, c12::replay as ReplayFn),
         ("C13", c13::run as RunFn, c13::replay as ReplayFn),
         ("C14", c14::run as RunFn, c14::replay as ReplayFn),
         ("C15", c15::run as RunFn, c15::replay as ReplayFn),
